@@ -872,7 +872,7 @@ func (c *Ctx) isTestFn(f *ssa.Function) bool {
 func rangesWholeField(fn *ssa.Function, field string) bool {
 	for _, i := range ssau.Ifs(fn) {
 		b, ok := i.Cond.(*ssa.BinOp)
-		if !ok || b.Op != token.LSS || i.Block().Comment != "rangeindex.loop" {
+		if !ok || b.Op != token.LSS || blockComment(i) != "rangeindex.loop" {
 			continue
 		}
 		if isLenOf(func(v ssa.Value) bool { return ssau.IsFieldOf(ssau.Unwrap(v), "", field) })(b.Y) {
